@@ -46,7 +46,10 @@ theorem C02_source_facts :
     lookupProgram = ["entries, found := s.backends[u.Host]", "if !found { return nil }", "url := u.String()",
       stmtLookupAppendsSlash, stmtLookupLoop, "return nil"] ∧
     configUrlProgram = ["u, _ := GetStringOptionWithEnv(config, id, \"url\")", stmtConfigAppendsSlash,
-      "if strings.Contains(parsed.Host, \":\") && hasStandardPort(parsed) { parsed.Host = parsed.Hostname() u = parsed.String() }"] := by
+      "if strings.Contains(parsed.Host, \":\") && hasStandardPort(parsed) { parsed.Host = parsed.Hostname() u = parsed.String() }"] ∧
+    -- etcd: the url is stored as `CheckValid` leaves it, and `CheckValid` only drops a standard port
+    etcdStoresCheckedUrl = true ∧
+    etcdUrlProgram = ["if strings.Contains(parsedUrl.Host, \":\") && hasStandardPort(parsedUrl) { parsedUrl.Host = parsedUrl.Hostname() p.Url = parsedUrl.String() }"] := by
   decide +kernel
 
 /-! ## 1. hex is injective: `Bytes.toHex_injective` (Basic/Bytes.lean) -/
@@ -455,7 +458,8 @@ theorem prefix_slash_eq_components (p u : List Char) :
 
 theorem lookup_facts :
     lookupProgram.contains stmtLookupAppendsSlash = true ∧ lookupProgram.contains stmtLookupLoop = true ∧
-    configUrlProgram.contains stmtConfigAppendsSlash = true := by decide +kernel
+    configUrlProgram.contains stmtConfigAppendsSlash = true ∧
+    etcdUrlProgram.contains stmtEtcdAppendsSlash = false := by decide +kernel
 
 theorem eq_stripSlash_append (u : List Char) (h : endsSlash u = true) : u = stripSlash u ++ ['/'] := by
   have hl : u.getLast? = some '/' := by simpa [endsSlash] using h
@@ -471,21 +475,36 @@ theorem slashTerm_eq (u : List Char) : slashTerm u = stripSlash u ++ ['/'] := by
 theorem endsSlash_slashTerm (u : List Char) : endsSlash (slashTerm u) = true := by
   rw [slashTerm_eq]; simp [endsSlash]
 
-/-- Every stored backend URL ends in a slash (`getConfiguredHosts`). -/
+/-- Every backend URL stored from the configuration file ends in a slash (`getConfiguredHosts`). -/
 theorem C02_config_url_slash_terminated (u : List Char) : endsSlash (configUrl u) = true := by
-  simp only [configUrl, lookup_facts.2.2, if_true]; exact endsSlash_slashTerm u
+  simp only [configUrl, lookup_facts.2.2.1, if_true]; exact endsSlash_slashTerm u
 
-/-- The comparison of `getBackendLocked` decides exactly "the URL lies under the backend URL". -/
-theorem C02_entry_match_iff_under (e : Entry) (u : List Char) (he : endsSlash e.url = true) :
+/-- A backend URL received from etcd is stored as given — with or without the final slash. -/
+theorem C02_etcd_url_as_given (u : List Char) : etcdUrl u = u := by
+  simp only [etcdUrl, lookup_facts.2.2.2, Bool.false_eq_true, if_false]
+
+/-- No stored backend URL is empty: the configuration file's is `'/'`-terminated, and
+`BackendInformationEtcd.CheckValid` refuses an empty one ("url missing"). -/
+theorem C02_stored_url_nonempty (u : List Char) : configUrl u ≠ [] ∧ (u ≠ [] → etcdUrl u ≠ []) := by
+  refine ⟨fun h => ?_, fun hu => by rw [C02_etcd_url_as_given]; exact hu⟩
+  have := C02_config_url_slash_terminated u
+  rw [h] at this
+  simp [endsSlash] at this
+
+/-- The comparison of `getBackendLocked` decides exactly "the URL lies under the backend URL" — whether
+the entry's URL is stored with the final slash (configuration file) or without (etcd). -/
+theorem C02_entry_match_iff_under (e : Entry) (u : List Char) (he : e.url ≠ []) :
     entryMatches (lookupKey u) e = under e.url u := by
-  simp only [entryMatches, lookupKey, lookup_facts.1, lookup_facts.2.1, if_true]
-  rw [slashTerm_eq, eq_stripSlash_append e.url he, prefix_slash_eq_components]
+  have hne : e.url.isEmpty = false := by cases h : e.url with
+    | nil => exact absurd h he
+    | cons _ _ => rfl
+  simp only [entryMatches, lookupKey, lookup_facts.1, lookup_facts.2.1, if_true, hne, Bool.false_or]
+  rw [slashTerm_eq, slashTerm_eq, prefix_slash_eq_components]
   simp only [under, components]
-  rw [← eq_stripSlash_append e.url he]
 
-/-- **C02_lookup_owner.** With stored URLs ending in a slash, the backend a URL resolves to is the first
-configured backend the URL lies under — no backend if it lies under none. -/
-theorem C02_lookup_owner (es : List Entry) (u : List Char) (hes : ∀ e ∈ es, endsSlash e.url = true) :
+/-- **C02_lookup_owner.** The backend a URL resolves to is the first configured backend the URL lies
+under — no backend if it lies under none. -/
+theorem C02_lookup_owner (es : List Entry) (u : List Char) (hes : ∀ e ∈ es, e.url ≠ []) :
     lookup es u = (owners es u).head? := by
   unfold lookup owners
   induction es with
@@ -502,7 +521,7 @@ theorem C02_lookup_owner (es : List Entry) (u : List Char) (hes : ∀ e ∈ es, 
 /-- **C02_hdr_claims.** The backend header of a request resolves to `b` only if the URL it carries lies
 under `b`'s URL; a URL under no configured backend URL is unknown (so: 403, `roomAuth_eq`); and if the
 URL lies under exactly one backend URL (no nested backend URLs), it resolves to that backend. -/
-theorem C02_hdr_claims (es : List Entry) (v : List Char) (hes : ∀ e ∈ es, endsSlash e.url = true) :
+theorem C02_hdr_claims (es : List Entry) (v : List Char) (hes : ∀ e ∈ es, e.url ≠ []) :
     (∀ b, hdrOf es v = .known b → b ∈ owners es v) ∧
     (v ≠ [] → owners es v = [] → hdrOf es v = .unknown) ∧
     (∀ b, v ≠ [] → owners es v = [b] → hdrOf es v = .known b) ∧
@@ -521,14 +540,26 @@ theorem C02_hdr_claims (es : List Entry) (v : List Char) (hes : ∀ e ∈ es, en
 `getConfiguredHosts` stores it, with sibling URLs written with and without the final slash. -/
 example :
     let es : List Entry := [⟨⟨"b1", [1]⟩, configUrl "http://h/cloud".toList⟩, ⟨⟨"b2", [2]⟩, configUrl "http://h/cloud2/".toList⟩]
-    (∀ e ∈ es, endsSlash e.url = true) ∧ owners es "http://h/cloud2".toList = [⟨"b2", [2]⟩] ∧
+    (∀ e ∈ es, e.url ≠ []) ∧ owners es "http://h/cloud2".toList = [⟨"b2", [2]⟩] ∧
     hdrOf es "http://h/cloud2".toList = .known ⟨"b2", [2]⟩ ∧ hdrOf es "http://h/cloud3/".toList = .unknown ∧
     hdrOf es [] = .absent := by
   decide +kernel
 
-/-- Why the terminating slash matters (the comparison this model interprets is pinned by
-`C02_source_facts`): without it a backend URL is also a string prefix of its sibling's URLs, although
-those do not lie under it; with it the sibling resolves to its own backend whatever the order. -/
+/-- … and for backends as `EtcdKeyUpdated` stores them: URLs kept as given, here without the final slash. -/
+example :
+    let es : List Entry := [⟨⟨"b1", [1]⟩, etcdUrl "https://domain1.invalid/foo".toList⟩, ⟨⟨"b2", [2]⟩, etcdUrl "https://domain1.invalid/foobar".toList⟩]
+    (∀ e ∈ es, e.url ≠ [] ∧ endsSlash e.url = false) ∧
+    owners es "https://domain1.invalid/foobar/ocs/v2.php".toList = [⟨"b2", [2]⟩] ∧
+    hdrOf es "https://domain1.invalid/foobar/ocs/v2.php".toList = .known ⟨"b2", [2]⟩ ∧
+    hdrOf es "https://domain1.invalid/foo".toList = .known ⟨"b1", [1]⟩ ∧
+    hdrOf es "https://domain1.invalid/foob/".toList = .unknown ∧
+    hdrOf (es.take 1) "https://domain1.invalid/foobar/ocs/v2.php".toList = .unknown := by
+  decide +kernel
+
+/-- Why the terminating slashes matter (the comparison this model interprets is pinned by
+`C02_source_facts`): without them a backend URL is also a string prefix of its sibling's URLs, although
+those do not lie under it; with them the sibling resolves to its own backend whatever the order — for
+entries stored with the final slash (configuration file) and without it (etcd) alike. -/
 theorem C02_prefix_without_slash_is_not_ownership :
     let cloud := "http://h/cloud/".toList
     let cloud2 := "http://h/cloud2/".toList
@@ -538,7 +569,12 @@ theorem C02_prefix_without_slash_is_not_ownership :
     (stripSlash cloud).isPrefixOf u = true ∧ under cloud u = false ∧ under cloud2 u = true ∧
     lookup [⟨b1, cloud⟩, ⟨b2, cloud2⟩] u = some b2 ∧ lookup [⟨b2, cloud2⟩, ⟨b1, cloud⟩] u = some b2 ∧
     lookup [⟨b1, cloud⟩, ⟨b2, cloud2⟩] "http://h/cloud".toList = some b1 ∧
-    lookup [⟨b1, cloud⟩, ⟨b2, cloud2⟩] "http://h/clou/".toList = none := by
+    lookup [⟨b1, cloud⟩, ⟨b2, cloud2⟩] "http://h/clou/".toList = none ∧
+    -- the same backends with their URLs stored without the final slash
+    under (stripSlash cloud) u = false ∧
+    lookup [⟨b1, stripSlash cloud⟩, ⟨b2, stripSlash cloud2⟩] u = some b2 ∧
+    lookup [⟨b1, stripSlash cloud⟩] u = none ∧
+    lookup [⟨b1, stripSlash cloud⟩] "http://h/cloud/x".toList = some b1 := by
   decide +kernel
 
 /-! ## 8. Non-vacuity -/
